@@ -1042,7 +1042,9 @@ class HState:
         return out
 
     LIST_MENU = [("", "*"), ("", "%"), ("", "a/%"), ("a/", "%"), ("", "INBOX"), ("", "inbox"), ("", "a*"), ("", "%/%"),
-                 ("", "a b"), ("", "x+y"), ("", "q[1]"), ("", "*b*"), ("a/", "*"), ("", "a")]
+                 ("", "a b"), ("", "x+y"), ("", "q[1]"), ("", "*b*"), ("a/", "*"), ("", "a"),
+                 # INBOX is matched in any letter case, also under wild cards
+                 ("", "IN*"), ("", "i%X"), ("", "In%")]
 
     def observe_namespace(self, sname="N"):
         """C17: LIST and LSUB for a menu of (reference, pattern) against the namespace model."""
